@@ -533,6 +533,10 @@ def run(ctx):
     if os.path.exists(os.path.join(core.VERIF, "props", "C01core2.py")):
         import importlib
         importlib.import_module("props.C01core2").run_part(ctx)
+    # part cover (props/C01cover.py): generator + reference for the items of the instruction list the streams above lack
+    if os.path.exists(os.path.join(core.VERIF, "props", "C01cover.py")):
+        import importlib
+        importlib.import_module("props.C01cover").run_part(ctx)
     return ctx.finish(LEVEL, explanation="unbounded theorems over Gallina models of the pending-start-tag event machine and of the VariablesStack (lexical scoping refinement) + structural facts regenerated from the source + two correspondences of the extracted models with the rebuilt library + a reference XSLT 1.0 interpreter as oracle on generated programs")
 
 
